@@ -80,6 +80,8 @@ def run(ctx):
     c18.nearest_pure(ctx, 'C02.D4')
     from . import c07
     c07.writer_memo(ctx, 'C02.D7', 'jsondumper')
+    from . import _dump as _d9
+    _d9.single_traversal(ctx, 'C02.D6')
     _assembly(ctx)
     J.dumps_call(ctx, 'C02.D6')
     # a list of grids is dumped grid for grid (clauses shared with C06.D1)
